@@ -37,6 +37,8 @@ Bad(e) ==
   \cup (IF MakesResult(e) /\ ~e.same THEN {"C12.result_differs"} ELSE {})
   \* overwriting a result changed the text the caller had passed in: the result was the caller's input memory
   \cup (IF e.ev = "ScribbleResult" /\ ~e.same THEN {"C12.result_aliases_input"} ELSE {})
+  \* the parts of one split are results of their own: overwriting one (up to its capacity) does not reach another
+  \cup (IF e.ev = "ScribbleResult" /\ "shared" \in DOMAIN e /\ e.shared THEN {"C12.results_share_memory"} ELSE {})
 
 Reset ==
   /\ Trace[l].ev = "Start"
